@@ -2,6 +2,7 @@
 package c11
 
 import (
+	"io"
 	"fmt"
 	"net/http"
 	"strings"
@@ -32,7 +33,10 @@ var col = vstat.New("C11", "c11.release")
 
 func genConn(t *rapid.T) ConnCase {
 	alpn := rapid.SampledFrom([]string{"h2", "http/1.1", ""}).Draw(t, "alpn")
-	switch rapid.IntRange(0, 6).Draw(t, "mode") {
+	switch rapid.IntRange(0, 7).Draw(t, "mode") {
+	case 7:
+		// an HTTP/2 client that disappears in the middle of an upload whose handler reads the body only afterwards
+		return ConnCase{"vanish", rig.ConnPlan{Kind: "serve", ALPN: "h2", NReq: rapid.IntRange(0, 2).Draw(t, "nreq"), Limit: -1, LastStream: "upload-then-vanish"}}
 	case 0, 1:
 		lim := int64(rapid.IntRange(0, 2600).Draw(t, "cut"))
 		return ConnCase{"abort", rig.ConnPlan{Kind: "serve", ALPN: alpn, NReq: rapid.IntRange(0, 2).Draw(t, "nreq"), Limit: lim, LimitMode: "close"}}
@@ -96,6 +100,12 @@ func exec(t *testing.T, s Script) *vstat.Violation {
 					w.WriteHeader(200) // answered before the request body has arrived
 					return
 				}
+				if strings.HasPrefix(r.URL.Path, "/drain-when-gone/") {
+					// a handler that notices the client is gone and only then empties what had arrived of the body
+					<-r.Context().Done()
+					io.Copy(io.Discard, r.Body)
+					return
+				}
 				next.ServeHTTP(w, r)
 			})
 		}})
@@ -127,6 +137,13 @@ func exec(t *testing.T, s Script) *vstat.Violation {
 				rig.Wait()
 				if !closed() {
 					viol = vstat.Violf("client-abort|conn-not-closed", "%s: client is gone, the proxy has not closed the accepted connection", desc)
+					return false
+				}
+			case "vanish":
+				rig.Wait()
+				o.classes = append(o.classes, "vanish:mid-upload-h2")
+				if !closed() {
+					viol = vstat.Violf("client-abort|conn-not-closed", "%s: client is gone in the middle of an upload, the proxy has not closed the accepted connection", desc)
 					return false
 				}
 			case "normal":
@@ -286,7 +303,7 @@ func dedup(in []string) []string {
 
 func TestRelease(t *testing.T) {
 	rig.Certs()
-	col.Mandatory("abort:during-handshake", "abort:after-handshake:h2", "abort:after-handshake:http/1.1", "stall:before-handshake-complete", "handshake-timeout-enforced", "stall:after-handshake",
+	col.Mandatory("vanish:mid-upload-h2", "abort:during-handshake", "abort:after-handshake:h2", "abort:after-handshake:http/1.1", "stall:before-handshake-complete", "handshake-timeout-enforced", "stall:after-handshake",
 		"idle:h2", "idle:http/1.1", "idle:no-alpn", "parallel:true", "hs-timeout:0ms", "idle-after:client-rst", "idle-after:early-response", "idle-after:malformed")
 	vstat.Run(t, vstat.Spec[Script]{Col: col, Quick: 1200, Thorough: 40000, Gen: gen, Exec: func(s Script) *vstat.Violation { return exec(t, s) }})
 }
